@@ -145,12 +145,17 @@ def handlePathRes (op : String) (j : Json) : Option (Except String Json) :=
         let a ← v.getArr?
         let rs ← a.toList.mapM (fun n => do let s ← n.getStr?; pure s.toList)
         pure (some rs)
+    let (allEv, allErr, allDone) := match initialItems cfg roots with
+      | some items => runAll cfg w fuel items []
+      | none => ([], [Err.typeError], true)
     let (tr, e) := loadFiles cfg w fuel roots
     let endJ := match e with
       | .done => Json.str "done"
       | .outOfFuel => Json.str "out-of-fuel"
       | .aborted err => exc (errName err)
-    pure (Json.mkObj [("end", endJ), ("trace", arr (tr.map evToJson))])
+    pure (Json.mkObj [("end", endJ), ("trace", arr (tr.map evToJson)),
+      ("all_trace", arr (allEv.map evToJson)), ("all_errors", arr (allErr.map (fun x => Json.str (errName x)))),
+      ("all_complete", Json.bool allDone)])
   | _ => none
 
 end Drv
